@@ -156,6 +156,8 @@ pub struct Report {
     pub violation_count: u64,
     pub harness_errors: Vec<String>,
     pub max_samples: usize,
+    /// ground SMT-LIB equalities (expected to be valid) for the non-gating cvc5 cross-check
+    pub xchecks: Vec<String>,
 }
 
 impl Report {
@@ -172,6 +174,7 @@ impl Report {
             violation_count: 0,
             harness_errors: Vec::new(),
             max_samples: 6,
+            xchecks: Vec::new(),
         }
     }
     pub fn count(&mut self, key: &str, n: u64) {
@@ -221,6 +224,13 @@ impl Report {
                 case: case.to_string(),
                 seed,
             });
+        }
+    }
+    /// record a ground SMT-LIB boolean term that must be valid (at most 60 per shard)
+    pub fn xcheck(&mut self, term: impl FnOnce() -> String) {
+        if self.xchecks.len() < 60 {
+            let t = term();
+            self.xchecks.push(t);
         }
     }
     pub fn harness_error(&mut self, msg: String) {
@@ -286,6 +296,13 @@ impl Report {
         }
         o.push_str("],\"harness_errors\":[");
         for (i, s) in self.harness_errors.iter().enumerate() {
+            if i > 0 {
+                o.push(',');
+            }
+            o.push_str(&json_str(s));
+        }
+        o.push_str("],\"xchecks\":[");
+        for (i, s) in self.xchecks.iter().enumerate() {
             if i > 0 {
                 o.push(',');
             }
@@ -379,5 +396,10 @@ impl Report {
             }
         }
         self.harness_errors.extend(o.harness_errors);
+        for x in o.xchecks {
+            if self.xchecks.len() < 60 {
+                self.xchecks.push(x);
+            }
+        }
     }
 }
